@@ -146,6 +146,40 @@ def run_return(w, unchecked):
     return res
 
 
+def run_return_protected(w, unchecked):
+    """return from a preemptive defeat function (README "Preemptive defeat functions"): in a checked build, if what follows the return would lead to
+    defeat the run ends with the nonlocal_preempt error; otherwise (and always in an unchecked build) it is an ordinary return"""
+    res = []
+    for nm, mk in (('none', None), ('int-opaque', lambda L: L.opaque('v', I)), ('bool-cmp', lambda L: ast.Lt(None, L.opaque('a'), L.opaque('b')))):
+        for k in (0, 1):
+            L = Lemma(f'stmt/return-protected/{nm}/arrays={k}/w{w}/{"unchecked" if unchecked else "checked"}', w, unchecked, virtual_defeat=True, n_prior_arrays=k)
+            L.functions.update(GEN)
+            try:
+                L.function_context(in_try=False)
+                cg = L.cg
+                # a defeat function: defeat is the variable word throughout; preemptive => protected (gen_func sets this from body.preemptive)
+                cg.func_defeat = asm.State(cg.defeat); cg.effective_defeat = cg.func_defeat; cg.needs_variable_defeat = True
+                cg.needs_return_protection = not unchecked
+                L.func_defeat_value = L.entry.regs['defeat']
+                L.return_protected = True
+                s = ast.ReturnStatement(SPAN, mk(L) if mk else None)
+                P = props(unchecked, c02=True)
+                P['SIM'] = P['SIM'] + ('C05',)
+                res += L.check_stmts([s], P, [('ijump', None)])
+                if not unchecked:
+                    import time as _t
+                    t0 = _t.time()
+                    prot = [l for l in L.last_leaves if l.kind == 'term' and l.tgt == 'nonlocal_preempt']
+                    ok = bool(prot) and all(l.tag is not None and l.tag[0] == 'assumed-bot' for l in prot)
+                    L.add('PROTECTED', 'discharged' if ok else 'failed', t0, ('C02', 'C05'),
+                          {'formula': 'nonlocal_preempt is raised exactly on the assumption that the continuation of the return halts',
+                           'message': '' if ok else 'no protection leaf, or the nonlocal_preempt error is reachable without the continuation halting'})
+                    res.append(L.results[-1])
+            finally:
+                L.close()
+    return res
+
+
 def run_loop_exit(w, unchecked):
     """break / continue: release exactly the arrays allocated since the loop's restore point, restore the loop's defeat"""
     res = []
@@ -177,7 +211,62 @@ def run_loop_exit(w, unchecked):
     return res
 
 
-FAMILIES = {'decl': run_decl, 'assign': run_assign, 'incassign': run_incassign, 'exprstmt': run_exprstmt, 'return': run_return, 'loopexit': run_loop_exit}
+def run_decl_array(w, unchecked):
+    """declarations of array variables (push_expr on an array-typed initialiser): a literal creates a new stack array, `T a[n]` a new
+    uninitialised one, an array variable / string view as initialiser binds a second reference to the same storage (no copy).
+    A following lookup through the new name reads the array the source semantics bound; ap advances by exactly the sizes allocated."""
+    from hidc.ast import ArrayType
+    from hidc.codegen.symbols import AccessMode
+    res = []
+    def lit(L, el, n, tag=''):
+        return ast.ArrayLiteral(tuple(L.opaque(f'e{tag}{k}', el) for k in range(n)), SPAN, ArrayType(el, const=False), True)
+    def look(L, name, t, idx='i'):
+        return ast.ArrayLookup(ast.VariableLookup(ast.Variable(name, t, False), SPAN), L.opaque(idx), SPAN.end)
+    cases = []
+    for el in (I, Y, B):
+        cases.append((f'literal-{el}', False, lambda L, el=el: [ast.Declaration(ast.Variable('a', ArrayType(el, False), False), lit(L, el, 2), SPAN.start),
+                                                              look(L, 'a', ArrayType(el, False))]))
+        cases.append((f'dynamic-{el}', True, lambda L, el=el: [ast.Declaration(ast.Variable('a', ArrayType(el, False), False),
+                                                                               ast.ArrayInitializer(ArrayType(el, False), L.opaque('n')), SPAN.start),
+                                                              L.opaque('s', I)]))
+    cases.append(('literal-then-literal', False, lambda L: [ast.Declaration(ast.Variable('a', ArrayType(I, False), False), lit(L, I, 2, 'a'), SPAN.start),
+                                                            ast.Declaration(ast.Variable('b', ArrayType(Y, False), False), lit(L, Y, 3, 'b'), SPAN.start),
+                                                            look(L, 'a', ArrayType(I, False)), look(L, 'b', ArrayType(Y, False), 'j')]))
+    cases.append(('dynamic-then-literal', True, lambda L: [ast.Declaration(ast.Variable('a', ArrayType(I, False), False),
+                                                                           ast.ArrayInitializer(ArrayType(I, False), L.opaque('n')), SPAN.start),
+                                                           ast.Declaration(ast.Variable('b', ArrayType(I, False), False), lit(L, I, 2, 'b'), SPAN.start),
+                                                           look(L, 'b', ArrayType(I, False), 'j')]))
+    cases.append(('literal-then-dynamic', True, lambda L: [ast.Declaration(ast.Variable('b', ArrayType(I, False), False), lit(L, I, 2, 'b'), SPAN.start),
+                                                           ast.Declaration(ast.Variable('a', ArrayType(Y, False), False),
+                                                                           ast.ArrayInitializer(ArrayType(Y, False), L.opaque('n')), SPAN.start),
+                                                           look(L, 'b', ArrayType(I, False), 'j')]))
+    for where, access in (('local', AccessMode.RW), ('local', AccessMode.R), ('local', AccessMode.RC), ('glob', AccessMode.RW), ('glob', AccessMode.RC)):
+        def mk(L, where=where, access=access):
+            src = L.array_var('a', I, where, access)
+            const = access != AccessMode.RW
+            init = src if const or True else src
+            return [ast.Declaration(ast.Variable('b', ArrayType(I, const), False), init, SPAN.start), look(L, 'b', ArrayType(I, const))]
+        cases.append((f'alias-{where}-{access.name}', False, mk))
+    cases.append(('alias-volatile', False, lambda L: [ast.Declaration(ast.Variable('b', ArrayType(I, True), False),
+                                                                       ast.Volatile(L.array_var('a', I, 'local', AccessMode.RW)), SPAN.start),
+                                                     look(L, 'b', ArrayType(I, True))]))
+    cases.append(('string-as-bytes', False, lambda L: [ast.Declaration(ast.Variable('b', ArrayType(Y, True), False),
+                                                                        ast.StringToByteArray(L.string_operand('s', 'opaque')), SPAN.start),
+                                                      look(L, 'b', ArrayType(Y, True))]))
+    for nm, dyn, mk in cases:
+        if dyn and unchecked:
+            continue          # the unchecked build has no allocation guard: specified only when the array fits (lem_guard states that precondition)
+        L = Lemma(f'stmt/decl-array/{nm}/w{w}/{"unchecked" if unchecked else "checked"}', w, unchecked)
+        L.functions.update(GEN + ['hidc.codegen.generator.CodeGen.create_new_stack_array', 'hidc.codegen.generator.CodeGen.array_lookup'])
+        try:
+            cov = [('exit', '<end>')] + ([] if unchecked else [('term', 'out_of_bounds')] if not nm.startswith('dynamic') else [('term', 'stack_overflow')])
+            res += L.check_stmts(mk(L), props(unchecked), cov)
+        finally:
+            L.close()
+    return res
+
+
+FAMILIES = {'decl': run_decl, 'decl-array': run_decl_array, 'assign': run_assign, 'incassign': run_incassign, 'exprstmt': run_exprstmt, 'return': run_return, 'return-protected': run_return_protected, 'loopexit': run_loop_exit}
 
 
 def run(family, w, unchecked):
